@@ -321,10 +321,10 @@ pub fn run_batch(lines: &[String]) -> Vec<Obs> {
                     let obs = format!("err {kind}");
                     let v = if neighbour_err[k] {
                         Err("a correct invocation on the line next to the rejected one was reported as an error too".to_string())
-                    } else if rt == obs {
-                        Ok(())
                     } else if rt.starts_with("err") {
-                        Err(format!("compile error {kind} but the runtime parser says {rt}"))
+                        // "a compile error at that invocation": the statement does not say which error the diagnostic
+                        // names (the kind in the observation is informational)
+                        Ok(())
                     } else {
                         Err(format!("the macro rejects a text the runtime parser accepts ({rt})"))
                     };
@@ -656,7 +656,8 @@ fn generate_hardening(seed: u64, thorough: bool, emit: &mut dyn FnMut(String)) {
         emit_case(emit, 2, t2.trim_start_matches(" +"));
     }
     // ---- (3) invalid texts of every error KIND the runtime parsers can produce; each alone and inside a longer correct
-    //      polynomial.  The compile error's message must carry the same kind.
+    //      polynomial.  Each must be a compile error at its own line (the kind the diagnostic names is recorded in the
+    //      observation but not demanded: the statement says "a compile error at that invocation").
     let bad1: [&str; 30] = [
         // PolynomialSyntaxError
         "x + + 1", "2x - - 4", "2x^2 +", "- - x", "x + 1 -", "+ + x",
